@@ -46,7 +46,8 @@ def validate_runs(ctx, runs, exact=False, label="agp"):
             metas.append((n, ch, len(events)))
     results = run_batches(jobs, max_workers=16)
     failures = []
-    stats = {"events": 0, "runs": 0, "trials": 0, "argmax_comparisons": 0, "recalcs": 0, "states": 0, "by_n": {}}
+    stats = {"events": 0, "runs": 0, "trials": 0, "argmax_comparisons": 0, "recalcs": 0, "states": 0, "by_n": {}, "cert": 0, "accstops": 0,
+             "cert_by_n": {}}
     for (n, ch, nev), res in zip(metas, results):
         v = verdict_of(res)
         if v is None or not res.ok:
@@ -59,6 +60,9 @@ def validate_runs(ctx, runs, exact=False, label="agp"):
         stats["trials"] += v["stats"]["trials"]
         stats["argmax_comparisons"] += v["stats"]["argmax"]
         stats["recalcs"] += v["stats"]["recalcs"]
+        stats["cert"] += v["stats"]["cert"]
+        stats["accstops"] += v["stats"]["accstops"]
+        stats["cert_by_n"][n] = stats["cert_by_n"].get(n, 0) + v["stats"]["cert"]
         stats["by_n"][n] = stats["by_n"].get(n, 0) + v["stats"]["trials"]
         bytid = {r.tid: r for r in ch}
         for (tid, eid, clause) in v["failed"]:
